@@ -12,11 +12,16 @@ results do not share storage with operands (and stay independent when the result
 
 Runs on the contract level of the sparse kernels (l0=True): stoichiometries of both signs are added/subtracted.
 """
+import os
 import numpy as np
 import thermosteam as tmo
 from thermosteam.base import SparseVector, SparseArray
 from engine.api import group
 from engine.sx import tmo_world as W
+
+# engine option (engine/sx/sym.py, Ctx.prove): discharge each VC first on a fresh one-shot solver; the long-lived path
+# solver needed its full time-out on the rational-function identities of mixed-basis sums (20 s vs 0.02 s), same verdicts
+os.environ.setdefault('VERIF_PROVE_FRESH_MS', '5000')
 
 IDS = ('Water', 'Ethanol', 'Methanol', 'Octane')
 # private compiled chemicals (not the shared W.thermo packages): their molecular weights are replaced by leaves
@@ -186,7 +191,7 @@ def add_configs(tier):
                     if tier == 'quick' and bases != 'mol+mol' and op not in ('add', 'iadd'): continue
                     if tier == 'quick' and bases == 'wt+mol' and ph: continue
                     if op in ('self', 'triple') and bases in ('mol+wt', 'wt+mol'): continue
-                    if op == 'triple' and ph and (tier == 'quick' or n == 4): continue
+                    if op == 'triple' and ph and n == 4: continue
                     out.append({'name': f'n={n};ph={ph or "-"};basis={bases};op={op}', 'n': n, 'ph': ph, 'bases': bases, 'op': op})
     return out
 
